@@ -573,7 +573,8 @@ func (e *Engine) appendSlicesAt(fr *Frame, instr ssa.Instruction, st *State, pc 
 		if fr != nil && instr != nil && e.frameOn && !fr.clause && e.quiet == 0 {
 			// the in-place store must not reach memory that existed before the
 			// function under verification was entered
-			goal := Or(isNil, e.allocGe(LocObj(SliceBase(s))))
+			// (when len == cap, append reallocates and nothing old is written)
+			goal := Or(isNil, e.allocGe(LocObj(SliceBase(s))), Eq(SliceLen(s), SliceCap(s)))
 			if !goal.IsTrue() {
 				e.addObl(fr, "frame", fmt.Sprintf("append#%d", e.ordinal(fr.fn, instr)), e.frameProps, pc, goal, e.posOf(fr, instr))
 			}
